@@ -9,7 +9,7 @@ VERIF = os.path.dirname(os.path.dirname(os.path.abspath(__file__)))
 CHECKS = {
     "C12": (
         "fault_enumeration",
-        "exhaustive hostile-message catalogue x target kind x insertion position x transport {TCP, TTY, direct} + Hypothesis-filled names/values, x split delivery x log forwarding on/off, word-size BLOB sizes under compressed formats, with a snooping driver in the server; survival, applicable-part-applied and state-frame oracle on real handlers over fake streams",
+        "exhaustive hostile-message catalogue x target kind x insertion position x transport {TCP, TTY, direct} + Hypothesis-filled names/values, x split delivery x log forwarding on/off, word-size BLOB sizes under compressed formats, XML declarations naming encodings, with a snooping driver in the server; survival, applicable-part-applied and state-frame oracle on real handlers over fake streams",
         "Fault enumeration: every entry of a catalogue of hostile-but-well-formed client messages is injected at every position of a "
         "session of valid traffic on each transport; afterwards nothing may have escaped message handling, only validly named elements "
         "may have changed (to the submitted values), the sender and a bystander must still be registered and served, and a valid request "
@@ -19,7 +19,7 @@ CHECKS = {
     ),
     "C14": (
         "exploration",
-        "Hypothesis handler configurations x element kinds x op sequences x 1-2 instances, (base/derived class mix), exhaustive nested-write configurations (a handler forwarding with set_value), wraps-decorated coroutine handlers, one function on two event kinds; handler-trace vs analytic expectation",
+        "Hypothesis handler configurations x element kinds x op sequences x 1-2 instances, (base/derived class mix), exhaustive nested-write configurations (a handler forwarding with set_value), wraps-decorated coroutine handlers, one function on two event kinds, stamped client writes; handler-trace vs analytic expectation",
         "Generated-input search over handler configurations and write sequences: handlers are tracing closures declared through the "
         "documented @on decorator on generated driver classes; after each operation the trace, the element value and the recorded "
         "publications are compared with the analytic expectation of the event contract (Write once and first, veto, one publication "
@@ -29,7 +29,7 @@ CHECKS = {
     ),
     "C15": (
         "exploration",
-        "Hypothesis message streams over a small name universe (redefinition, kind mismatch, unknown targets, deletions) x foreign spellings x fragmentation, verbatim repeats, updates aimed at earlier definitions, contradictory / compressed BLOB sizes, repeated / decreasing time stamps, mid-stream client writes; reference-client differential (validity predicate where the statement leaves a choice) after every message",
+        "Hypothesis message streams over a small name universe (redefinition, kind mismatch, unknown targets, deletions) x foreign spellings x fragmentation, verbatim repeats, updates aimed at earlier definitions, contradictory / compressed BLOB sizes, repeated / decreasing time stamps, whole-case renaming (glob characters, raw Latin-1), mid-stream client writes; reference-client differential (validity predicate where the statement leaves a choice) after every message",
         "Model-based generated search: the client's public view is compared with an independent reference interpreter of the INDI client "
         "rules after every message of generated streams (direct), and at the end of the same streams sent as fragmented bytes through "
         "the real client connection handler, whose receive task must survive. Exploration.",
@@ -38,7 +38,7 @@ CHECKS = {
     ),
     "C16": (
         "exploration",
-        "Hypothesis histories of stream messages interleaved with callback registration/removal (filters x event types x plain/coroutine/raising/one-shot), callbacks as function/partial/method/method of an otherwise unreferenced object/callable object, repeated / decreasing time stamps, mid-stream client writes; reference event derivation + probe-filter differential",
+        "Hypothesis histories of stream messages interleaved with callback registration/removal (filters x event types x plain/coroutine/raising/one-shot), callbacks as function/partial/method/method of an otherwise unreferenced object/callable object, repeated / decreasing time stamps, names with glob characters, mid-stream client writes; reference event derivation + probe-filter differential",
         "Model-based generated search over histories: the dispatched event sequence (seen by a filter-less probe) must equal, per message, "
         "the events the reference interpreter derives (change chains per definition epoch), and each callback's log must equal the probe's "
         "sequence filtered by its predicate and registration window. The generator is measured for the one-shot-followed-by-matching "
@@ -48,7 +48,7 @@ CHECKS = {
     ),
     "C17": (
         "exploration",
-        "exhaustive virtual-time grid enumeration (arrival instants x match patterns x timeout x polling x condition x event kind {value, state, definition}) on a deterministic virtual-clock loop + Hypothesis finer grids / concurrent waits (per-wait polling schedules, raising checks), analytic oracle",
+        "exhaustive virtual-time grid enumeration (arrival instants x match patterns x timeout x polling x condition x event kind {value, state, definition} x plain / glob-character names) on a deterministic virtual-clock loop + Hypothesis finer grids / concurrent waits (per-wait polling schedules, raising checks), analytic oracle",
         "Schedule search with the harness owning the clock: every placement of <= 2 (quick) / <= 3 (thorough) events on an 11-point grid "
         "with every timeout, polling setting, condition and event kind runs against the real waitforevent on a virtual-time event loop; "
         "the oracle is analytic (first matching event object of a probe's log, completion instant, polling tick instants, callback "
@@ -58,7 +58,7 @@ CHECKS = {
     ),
     "C18": (
         "fault_enumeration",
-        "exhaustive fault kind x step index x victim x transport enumeration over a script catalogue + Hypothesis scripts, handler exceptions of three classes, a 60/400-connection soak on one router, on real TCP/TTY handlers over fake streams; cleanliness invariants + policy-aware delivery oracle",
+        "exhaustive fault kind x step index x victim x transport enumeration over a script catalogue + Hypothesis scripts, handler exceptions of three classes, a 60/400-connection soak on one router, connections announcing devices of their own, on real TCP/TTY handlers over fake streams; cleanliness invariants + policy-aware delivery oracle",
         "Fault enumeration: six ways a connection can end are injected at every step of session scripts, for every victim, on both server "
         "transports; afterwards the router's public state, the handler task, the writer and a delivery spy must show the victim gone, "
         "every bystander must receive exactly the later traffic its policy admits, and a newcomer must start from defaults.",
@@ -67,7 +67,7 @@ CHECKS = {
     ),
     "C19": (
         "exploration",
-        "exhaustive DFS over every completion order of pending write/flush/drain awaitables (Explorer) for 1-3 TCP/TTY/client connections and bursts <= 4/5 + Hypothesis bursts, a 150 kB message, a 3000/20000-message stalled peer, byte-exact output oracle",
+        "exhaustive DFS over every completion order of pending write/flush/drain awaitables (Explorer) for 1-3 TCP/TTY/client connections and bursts <= 4/5 + Hypothesis bursts, a 150 kB message, a 3000/20000-message stalled peer, a refused write on the TTY channel, byte-exact output oracle",
         "Schedule search with the harness owning the I/O completion order: the Explorer re-executes each scenario for every choice prefix, so "
         "all release orders (including a connection that never completes) are enumerated; each connection's output must be byte-identical "
         "to the concatenation of the routed messages in routing order. Exhaustive inside the bounds, Hypothesis beyond.",
@@ -76,7 +76,7 @@ CHECKS = {
     ),
     "C20": (
         "exploration",
-        "Hypothesis-generated messages x exhaustive single-point perturbation (incl. empty-vs-absent text, long values, float attributes), structural-view oracle",
+        "Hypothesis-generated messages x exhaustive single-point perturbation (incl. empty-vs-absent text, long values, float attributes, look-alike Unicode spellings), structural-view oracle",
         "Generated-input search: every message drawn from the grammar is compared (==, != both orders) with a rebuilt copy "
         "and with every single-point perturbation of itself; the oracle is equality of structural views computed from the "
         "generating specs, never the library's own comparison. Exploration is the right level: the domain is unbounded, "
@@ -97,7 +97,7 @@ CHECKS = {
     ),
     "C02": (
         "exploration",
-        "exhaustive 1/2/3-cut and char-by-char partition sweeps of a corpus + Hypothesis streams/partitions (foreign spellings with CR / LF / tab inside tags), optionally under DEBUG logging, prefix-delivery oracle from the generating specs; the same oracle through the real read loops of the TCP client/server and TTY handlers with read-size-aligned chunking",
+        "exhaustive 1/2/3-cut and char-by-char partition sweeps of a corpus + Hypothesis streams/partitions (foreign spellings with CR / LF / tab inside tags, CDATA-wrapped text, over-stated BLOB sizes), optionally under DEBUG logging, prefix-delivery oracle from the generating specs; the same oracle through the real read loops of the TCP client/server and TTY handlers with read-size-aligned chunking",
         "Generated-input search: message streams in canonical and foreign spellings are fed to the real Buffer under every 1-, 2- (3- in "
         "thorough) cut partition of a corpus and under drawn partitions of drawn streams, at three thresholds; after every process call the "
         "delivered views must equal the expected views of exactly the messages completed so far. Exploration with exhaustive parts.",
@@ -115,7 +115,7 @@ CHECKS = {
     ),
     "C03": (
         "exploration",
-        "exhaustive attribute-subset sweep + Hypothesis grammar/foreign-spelling round-trip (metamorphic), edit-after-serialization and fill-by-append cases, structural-view oracle",
+        "exhaustive attribute-subset sweep + Hypothesis grammar/foreign-spelling round-trip (metamorphic), edit-after-serialization and fill-by-append cases, user subclasses of the message classes present in the process, structural-view oracle",
         "Generated-input search with a round-trip and a metamorphic oracle: every kind x every subset of optional attributes is "
         "swept exhaustively, values/children/spellings are drawn by Hypothesis; the expected view is computed from the generating "
         "spec, the foreign spellings come from a hand-written serializer. Exploration: unbounded text domain, absence not established.",
@@ -124,7 +124,7 @@ CHECKS = {
     ),
     "C04": (
         "exploration",
-        "exhaustive enumeration of the bounded router universe (device subsets x client states x every client send) + Hypothesis histories, container-like (falsy) endpoints, unreferenced devices, reference-router differential",
+        "exhaustive enumeration of the bounded router universe (device subsets x client states x every client send) + Hypothesis histories, container-like (falsy) endpoints, unreferenced devices, floods of re-entrant sends, reference-router differential",
         "Model-based generated search: every abstract state of the bounded universe is built on a real Router and every client-originated "
         "send from every sender is compared, as a multiset of (endpoint, message) deliveries, with a 40-line reference router; longer "
         "histories in larger universes are drawn by Hypothesis. Exhaustive inside the bound, exploration beyond.",
@@ -133,7 +133,7 @@ CHECKS = {
     ),
     "C05": (
         "exploration",
-        "exhaustive enumeration of all 17^n policy states x every device send x every mutating op (cold and warm) + endpoints reacting from inside a delivery + Hypothesis histories, reference-router differential",
+        "exhaustive enumeration of all 17^n policy states x every device send x every mutating op (cold and warm) + endpoints reacting from inside a delivery + device names related as strings + Hypothesis histories, reference-router differential",
         "Model-based generated search: all (1+4^2)^n abstract states (n=2 quick, 3 thorough) x every device-originated message kind x "
         "device name x sender, plus every register/unregister/re-register/enableBLOB transition with the router's public state compared "
         "to the model and deliveries re-observed; Hypothesis histories beyond the bound.",
@@ -142,7 +142,7 @@ CHECKS = {
     ),
     "C06": (
         "exploration",
-        "Hypothesis deployments x write targets x value notations x fragmentations through the real Client, server handlers and Router; before/after snapshot frame oracle + mirror comparison",
+        "Hypothesis deployments x write targets x value notations x fragmentations x device-specific refreshes through the real Client, server handlers and Router; before/after snapshot frame oracle + mirror comparison",
         "Generated-input search through the whole stack in one process: a real network Client assigns and submits values (all notations) "
         "to a generated target over fake pipes with generated fragmentation; a snapshot of every element of every device before and "
         "after must differ exactly at the targeted elements, by the submitted values (numbers by the value the sent text denotes), and "
@@ -152,7 +152,7 @@ CHECKS = {
     ),
     "C07": (
         "exploration",
-        "Hypothesis-generated driver definitions x op histories (incl. reset, re-publication, group macros, the library's Proxy alongside) x request matrix, expectation computed from the generating spec, library parse-back of every emitted message",
+        "Hypothesis-generated driver definitions x op histories (incl. reset, re-publication, group macros, the library's Proxy alongside) x request matrix, expectation computed from the generating spec, library parse-back of every emitted message (from bytes and the way the transports decode)",
         "Generated-input search: device definitions (all vector kinds, inheritance, enable flags) are built into real Driver classes, "
         "driven through generated histories, and queried with every class of (device, name) request; the elicited definitions are "
         "compared as a multiset with the expectation derived from the spec and the drivers' public attributes, and every message "
@@ -173,7 +173,7 @@ CHECKS = {
     ),
     "C09": (
         "exploration",
-        "exhaustive state-graph enumeration (rule x n x state x operation) + Hypothesis histories, incl. histories that hide and show switches and histories with publishing / fallback / failing handlers; rule invariants on states and on every published update",
+        "exhaustive state-graph enumeration (rule x n x state x operation) + Hypothesis histories, incl. histories that hide and show switches and histories with publishing / fallback / failing handlers, exhaustive declining-Write-handler x client-write enumeration; rule invariants on states and on every published update",
         "Generated search over the complete transition graph of switch vectors up to n=5 (quick) / 6 (thorough) switches: every "
         "(state, operation) pair runs on a fresh driver behind a real Router with a recording client; invariants are checked on the "
         "after-state and on each setSwitchVector published on the way. Exhaustive inside the bound; Hypothesis histories up to n=8.",
@@ -182,7 +182,7 @@ CHECKS = {
     ),
     "C10": (
         "exploration",
-        "exhaustive resolution-grid and number-grammar enumeration + Hypothesis formats/values (widths to 80, precisions to 60, ambient decimal context varied), independent INDI number reference",
+        "exhaustive resolution-grid and number-grammar enumeration + Hypothesis formats/values (widths to 80, precisions to 60, ambient decimal context varied), text echoed back to a driver's Number element, independent INDI number reference",
         "Generated-input search against an independent reference of the INDI number conventions (harness/refnum.py): complete "
         "resolution grids of the sexagesimal formats on [-360,360], exhaustive grammar strings up to a length bound crossed with "
         "format classes, Hypothesis for printf flags/width/precision and value classes. Exploration with exhaustive parts; the bounds "
@@ -192,7 +192,7 @@ CHECKS = {
     ),
     "C13": (
         "exploration",
-        "exhaustive constrained-field x replacement-catalogue perturbation + Hypothesis random perturbation/random XML (+ atheris in thorough), the catalogue repeated in a python -O child, independent conformance validator",
+        "exhaustive constrained-field x replacement-catalogue perturbation + Hypothesis random perturbation/random XML (+ atheris in thorough), the catalogue extended by reflection on the tree's vocabulary classes and repeated in a python -O child, independent conformance validator",
         "Generated-input search: every constrained field of every message kind is replaced by every entry of a catalogue (absent, "
         "empty, wrong case, foreign vocabulary, arbitrary, Python-internal looking), plus random multi-perturbations, random XML and a "
         "coverage-guided campaign; whatever the parser accepts is judged by a validator hard-coded from the INDI DTD. Exploration.",
